@@ -246,6 +246,8 @@ pub mod isa {
 }
 
 pub use dispatch::{SimdOp, SimdUnaryOp};
+#[cfg(rten_verif)]
+pub use dispatch::verif;
 pub use elem::Elem;
 pub use float16::f16;
 pub use iter::{Iter, SimdIterable};
